@@ -1,4 +1,7 @@
 import SC.Proofs.SpecIndex
+import SC.Proofs.EmbedBytes
+import SC.Proofs.Identities
+import SC.Properties.C04
 /-!
 # C16 — results are invariant under changing the case of either argument
 
@@ -75,6 +78,95 @@ theorem invariant_rune_index :
 theorem invariant_count (fuel : Nat) :
     Spec.countFrom fuel (S.fruns s) (S.fruns t) = Spec.countFrom fuel (S.fruns s') (S.fruns t') := by
   rw [recase_fruns s s' hs, recase_fruns t t' ht]
+
+/-- Count itself is unchanged (the byte lengths, hence the fuel of the definition, may differ) -/
+theorem invariant_count' : S.count s t = S.count s' t' := by
+  have e1 := recase_fruns s s' hs
+  have e2 := recase_fruns t t' ht
+  by_cases h0 : t = []
+  · have h0' : t' = [] := by
+      have := recase_nrunes t t' ht
+      subst h0
+      simp only [S.nrunes, dec_nil, List.length_nil] at this
+      cases t' with
+      | nil => rfl
+      | cons b x => rw [dec_cons] at this; simp at this
+    subst h0; subst h0'
+    simp [S.count, recase_nrunes s s' hs]
+  · have h0' : t' ≠ [] := by
+      intro h; subst h
+      have := recase_nrunes t [] ht
+      simp only [S.nrunes, dec_nil, List.length_nil] at this
+      cases t with
+      | nil => exact h0 rfl
+      | cons b x => rw [dec_cons] at this; simp at this
+    rw [A.count_eq_cnt s t h0, A.count_eq_cnt s' t' h0', e1, e2]
+
+/-- trims and cuts: found-ness and the code-point position of the cut are unchanged; the byte offset is `offAt` of
+    that code-point position in the respective string -/
+theorem invariant_trims :
+    (S.prefixLen s t).isSome = (S.prefixLen s' t').isSome ∧
+    (∀ j, S.prefixLen s t = some j → j = offAt s (S.nrunes t) ∧ S.prefixLen s' t' = some (offAt s' (S.nrunes t))) ∧
+    (S.suffixStart s t).isSome = (S.suffixStart s' t').isSome ∧
+    (∀ i, S.suffixStart s t = some i → i = offAt s (S.nrunes s - S.nrunes t) ∧
+        S.suffixStart s' t' = some (offAt s' (S.nrunes s - S.nrunes t))) := by
+  have e1 := recase_fruns s s' hs
+  have e2 := recase_fruns t t' ht
+  have n1 := recase_nrunes s s' hs
+  have n2 := recase_nrunes t t' ht
+  have l1 : (S.fruns s').length = S.nrunes s := by rw [← e1]; exact fdec_length _ _
+  have l2 : (S.fruns t').length = S.nrunes t := by rw [← e2]; exact fdec_length _ _
+  refine ⟨?_, ?_, ?_, ?_⟩
+  · simp only [S.prefixLen, e1, e2]; split <;> rfl
+  · intro j hj
+    unfold S.prefixLen at hj ⊢
+    rw [e1, e2] at hj
+    by_cases hp : (S.fruns t').isPrefixOf (S.fruns s') = true
+    · rw [if_pos hp] at hj ⊢
+      exact ⟨(Option.some.inj hj).symm, by rw [n2]⟩
+    · rw [if_neg hp] at hj; cases hj
+  · simp only [S.suffixStart, e1, e2]; split <;> rfl
+  · intro i hi
+    unfold S.suffixStart at hi ⊢
+    simp only [e1, e2, l1, l2] at hi ⊢
+    split at hi
+    · rename_i hc
+      rw [if_pos hc]
+      exact ⟨(Option.some.inj hi).symm, rfl⟩
+    · cases hi
+
+/-- set searches: the code-point index of the reported position is unchanged -/
+theorem invariant_any :
+    (∃ ko : Option Nat, S.indexAny s t = (match ko with | some k => (offAt s k : Int) | none => -1) ∧
+        S.indexAny s' t' = (match ko with | some k => (offAt s' k : Int) | none => -1)) ∧
+    (∃ ko : Option Nat, S.lastIndexAny s t = (match ko with | some k => (offAt s k : Int) | none => -1) ∧
+        S.lastIndexAny s' t' = (match ko with | some k => (offAt s' k : Int) | none => -1)) := by
+  have e1 := recase_fruns s s' hs
+  have e2 := recase_fruns t t' ht
+  constructor
+  · refine ⟨(S.fruns s).findIdx? (fun x => (S.fruns t).contains x), ?_, ?_⟩
+    · unfold S.indexAny; simp only []; rfl
+    · unfold S.indexAny; simp only [e1, e2]; rfl
+  · have key : ∀ (z : Bytes) (n : Nat) (o : Option Nat),
+        (match o with | some k => ((offAt z (n - 1 - k) : Nat) : Int) | none => -1) =
+        (match o.map (fun k => n - 1 - k) with | some k => ((offAt z k : Nat) : Int) | none => -1) := by
+      intro z n o; cases o <;> rfl
+    refine ⟨((S.fruns s).reverse.findIdx? (fun x => (S.fruns t).contains x)).map (fun k => (S.fruns s).length - 1 - k), ?_, ?_⟩
+    · unfold S.lastIndexAny; simp only []
+      exact key _ _ _
+    · unfold S.lastIndexAny; simp only [e1, e2]
+      exact key _ _ _
+
+/-- the same invariance for the algorithm model (both packages, every backend setting) -/
+theorem model_invariant (cfg : A.Cfg) :
+    A.Compare cfg s t = A.Compare cfg s' t' ∧ A.EqualFold cfg s t = A.EqualFold cfg s' t' ∧
+    A.HasPrefix cfg s t = A.HasPrefix cfg s' t' ∧ A.HasSuffix cfg s t = A.HasSuffix cfg s' t' ∧
+    A.Contains cfg s t = A.Contains cfg s' t' ∧ A.ContainsAny cfg s t = A.ContainsAny cfg s' t' ∧
+    A.Count cfg s t = A.Count cfg s' t' := by
+  have h := invariant_scalars s s' t t' hs ht
+  have hc := invariant_count' s s' t t' hs ht
+  simp only [C04.compare_refines, A.EqualFold, A.HasPrefix_eq, A.HasSuffix_eq, A.Contains_eq, A.ContainsAny_eq, A.Count_eq]
+  exact ⟨h.1, by rw [h.1], h.2.2.1, h.2.2.2.1, h.2.2.2.2.1, h.2.2.2.2.2, by rw [hc]⟩
 end C16
 
 namespace C16
